@@ -109,13 +109,16 @@ class ArithOptimal(Contract):
     def inputs(self, cfg, D):
         sx, wx, fx = cfg['x']; sy, wy, fy = cfg['y']
         return {'cx': codes_in(D, 'cx', nelem(cfg['shx']), sx, wx), 'cy': codes_in(D, 'cy', nelem(cfg['shy']), sy, wy),
-                'ix': D.bool('inacc_x'), 'iy': D.bool('inacc_y')}
+                'ix': D.bool('inacc_x'), 'iy': D.bool('inacc_y'),
+                # operands may carry sticky overflow / underflow flags from their own history: the result must not inherit them
+                'ox': D.bool('ovf_x'), 'ux': D.bool('unf_x'), 'oy': D.bool('ovf_y'), 'uy': D.bool('unf_y')}
 
     def run(self, cfg, P, inp):
         sx, wx, fx = cfg['x']; sy, wy, fy = cfg['y']
         x = make_fxp(P, sx, wx, fx, codes=inp['cx'], shape=tuple(cfg['shx']), cfg={'op_method': cfg['method'], 'rounding': 'around'},
-                     status={'inaccuracy': inp['ix']}, vdtype=float)
-        y = make_fxp(P, sy, wy, fy, codes=inp['cy'], shape=tuple(cfg['shy']), cfg={'overflow': 'wrap'}, status={'inaccuracy': inp['iy']}, vdtype=float)
+                     status={'inaccuracy': inp['ix'], 'overflow': inp.get('ox', False), 'underflow': inp.get('ux', False)}, vdtype=float)
+        y = make_fxp(P, sy, wy, fy, codes=inp['cy'], shape=tuple(cfg['shy']), cfg={'overflow': 'wrap'},
+                     status={'inaccuracy': inp['iy'], 'overflow': inp.get('oy', False), 'underflow': inp.get('uy', False)}, vdtype=float)
         bx, by = dict(x.__dict__), dict(y.__dict__)
         vx0, vy0 = list(elems(x.val)), list(elems(y.val))
         z = apply_op(cfg['op'], x, y)
